@@ -9,6 +9,19 @@
 pub mod timestamp;
 pub use timestamp::HLCTimestamp;
 
+impl vcoll::Havoc for HLCTimestamp {
+    #[cfg(kani)]
+    fn havoc() -> Self {
+        let t = HLCTimestamp::from_u64(kani::any());
+        kani::assume(t.fractional() < 250);
+        t
+    }
+    #[cfg(not(kani))]
+    fn havoc() -> Self {
+        unreachable!()
+    }
+}
+
 pub mod env;
 
 #[path = "/verif/build/actor_bulk/gen/actor.rs"]
